@@ -8,6 +8,12 @@ import EmuVerif.Props.C19Term
 #print axioms EmuVerif.Props.C19Term.tape_converges_pos_bracket
 #print axioms EmuVerif.Props.C19Term.solver_search_bound
 #print axioms EmuVerif.Props.C19Term.terminates_away_from_zero
+#print axioms EmuVerif.Brent.nonneg_within
+#print axioms EmuVerif.Props.C19Term.within_nonneg_bracket
+#print axioms EmuVerif.Props.C19Term.terminates_nonneg_bracket
+#print axioms EmuVerif.Props.C19Term.tape_converges_nonneg_bracket
+#print axioms EmuVerif.Props.C19Term.solver_search_bound0
+#print axioms EmuVerif.Props.C19Term.terminates_nonneg
 #print axioms EmuVerif.Props.C19Term.overshoot_run_eps_quarter
 #print axioms EmuVerif.Props.C19Term.overshoot_run_eps_quarter_width
 #print axioms EmuVerif.Props.C19Term.overshoot_run_eps_one
